@@ -51,7 +51,7 @@ def relayout(a, lay):
         return np.asfortranarray(a).copy(order='F')
     if lay == 'T':
         # the buffer holds the axes in reversed order (for UTPM data: array axes first, then P, then D)
-        buf = np.ascontiguousarray(a.transpose())
+        buf = np.array(a.transpose(), order='C')      # always a copy
         return buf.transpose()
     if lay == 'strided':
         buf = np.zeros(a.shape[:-1] + (2 * a.shape[-1] + 1,), dtype=a.dtype)
